@@ -37,12 +37,14 @@ open GcArena.Generated.BrandTable (table)
 
 /-! ## General lemmas (all tables) -/
 
-/-- A struct with a field invariant in a parameter is invariant in it, whatever else it contains. -/
+/-- A struct with an unconditional (not `#[cfg]`-gated) field invariant in a parameter is invariant
+in it, whatever else it contains.  (`#[cfg]`-gated fields are left out of every variance, auto-trait
+and holding computation: an answer must hold in every configuration.) -/
 theorem variance_inv_of_field (tbl : Table) (n : String) (d : AdtDef) (f : Field) (tgt : Target)
-    (hd : tbl.find n = some d) (hf : f ∈ d.fields)
+    (hd : tbl.find n = some d) (hf : f ∈ d.fields) (hc : f.cfg = "")
     (hv : varTy (adtVarOracle tbl fuel) tgt .co f.ty = .inv) :
     tbl.variance n tgt = .inv :=
-  GcArena.Brand.variance_inv_of_field tbl n d f tgt hd hf hv
+  GcArena.Brand.variance_inv_of_field tbl n d f tgt hd hf hc hv
 
 /-- `PhantomData<Cell<&'a ()>>` is invariant in `'a` (any table, any fuel). -/
 theorem invariant_marker (look : VarOracle) (a : String) :
@@ -51,19 +53,19 @@ theorem invariant_marker (look : VarOracle) (a : String) :
 
 /-- A struct with a non-`Send` field and no `unsafe impl Send` is not `Send` for any instantiation. -/
 theorem not_send_of_field (tbl : Table) (n : String) (d : AdtDef) (f : Field)
-    (hd : tbl.find n = some d) (hf : f ∈ d.fields)
+    (hd : tbl.find n = some d) (hf : f ∈ d.fields) (hc : f.cfg = "")
     (hv : (autoTy (adtAutoOracle tbl fuel) [] f.ty).send = false)
     (hi : tbl.hasAutoImpl "Send" n false = false) :
     (tbl.autoOf n).send = false :=
-  GcArena.Brand.not_send_of_field tbl n d f hd hf hv hi
+  GcArena.Brand.not_send_of_field tbl n d f hd hf hc hv hi
 
 /-- A struct with a non-`Sync` field and no `unsafe impl Sync` is not `Sync` for any instantiation. -/
 theorem not_sync_of_field (tbl : Table) (n : String) (d : AdtDef) (f : Field)
-    (hd : tbl.find n = some d) (hf : f ∈ d.fields)
+    (hd : tbl.find n = some d) (hf : f ∈ d.fields) (hc : f.cfg = "")
     (hv : (autoTy (adtAutoOracle tbl fuel) [] f.ty).sync = false)
     (hi : tbl.hasAutoImpl "Sync" n false = false) :
     (tbl.autoOf n).sync = false :=
-  GcArena.Brand.not_sync_of_field tbl n d f hd hf hv hi
+  GcArena.Brand.not_sync_of_field tbl n d f hd hf hc hv hi
 
 /-- A type whose lifetime and type parameters are all bound outside a `for<'g>` binder cannot
 mention `'g`, under any instantiation of the outer type parameters by types formed outside the
@@ -108,6 +110,13 @@ Every such type must be invariant in `P`: a covariant `GcBuilder<'gc, &'static U
 theorem builders_invariant_in_value_type :
     ∀ r ∈ table.builderRows, table.builderOk r = true := by decide
 
+/-- Lower bound for the derived rows: the hand-written list that preceded the derivation (all six
+pairs) is contained in `table.builderRows`, and each of them is invariant – so the ∀ above cannot
+become vacuous because the heuristics behind `builderRows` stop firing. -/
+theorem required_builder_rows :
+    ∀ r ∈ requiredBuilderRows, table.builderRows.contains r = true ∧ table.builderOk r = true := by
+  decide
+
 /-- The crate contains no explicit (positive) `impl Send` / `impl Sync` at all. -/
 theorem no_explicit_auto_impls : table.violAutoImpls = [] := by decide
 
@@ -115,18 +124,44 @@ theorem no_explicit_auto_impls : table.violAutoImpls = [] := by decide
 theorem callbacks_present :
     ∀ n ∈ requiredCallbacks, (table.callbackNamed n).isSome = true := by decide
 
-/-- Every callback-taking entry point (the named ones and any other function of the crate whose
-callback receives a `Mutation` / `Finalization`) is `for<'gc>`-quantified with exactly one fresh
+/-- Every callback-taking entry point that client code free of `unsafe` can call (the named ones
+and any other safe `pub fn` of the crate whose callback receives a `Mutation` / `Finalization`;
+private or `unsafe` helpers that merely pass a callback on are covered by
+`brand_sites_behind_callbacks`) is `for<'gc>`-quantified with exactly one fresh
 lifetime, takes `&'gc Mutation<'gc>` (or `Finalization`) first, passes only `'gc`-branded root
 projections of its own root parameter besides, and has a result type that is closed under the
 parameters declared outside the binder, or is the new arena's own root projection. -/
-theorem callbacks_higher_ranked : ∀ cb ∈ table.callbacks, cb.ok = true := by decide
+theorem callbacks_higher_ranked : ∀ cb ∈ table.clientCallbacks, cb.ok = true := by decide
+
+/-- **Where brands are created.**  Every place of the crate that creates a brand out of nothing –
+every call (or mention) of a *brand source* (an `unsafe fn` whose result is a `Mutation` /
+`Finalization` with a caller-chosen lifetime: `Context::mutation_context`, `finalization_context`),
+and every reference `arena.rs` makes by dereferencing a pointer cast (`&*(e as *const _)`: the
+`&'static Mutation`, `&'static Root`) – sits in a client entry point all of whose callbacks pass
+`callbacks_higher_ranked`, or in a private / `unsafe` helper every in-crate caller of which
+(followed up the call graph, `Brand.srcBlame`) ends in such an entry point.  So a brand made from
+nothing can only ever be handed to a `for<'gc>` callback.
+
+Limits (also in the evidence file, `limits`): the *bodies* of the brand sources themselves
+(`context.rs`: `transmute::<&Context, &Mutation>`; `Finalization::deref`) and the `transmute`s of
+`barrier.rs` (`Write::assume` / `from_static` / `from_mut`, brand-preserving `repr(transparent)`
+casts) are recorded in the table but are under no ∀ here; pointer casts outside `arena.rs` are not
+recorded. -/
+theorem brand_sites_behind_callbacks :
+    ∀ b ∈ table.brandSites, table.brandSiteOk b = true := by decide
+
+/-- Lower bound: brand sources were found, every named entry point holds a brand-creating site or
+reaches one through a helper, and at least eight sites were recorded. -/
+theorem brand_sites_present :
+    2 ≤ table.brandSources.length ∧ 8 ≤ table.brandSites.length ∧
+    (∀ n ∈ requiredCallbacks, (table.brandSites.any (fun b => b.fn_ == n) ||
+        table.callSites.any (fun cs => cs.caller == n)) = true) := by decide
 
 /-- Consequence (via `binder_closed`): whatever types a client picks for the outer parameters of
 an entry point whose callback result is closed, the instantiated result type cannot mention the
 brand. -/
 theorem callback_result_brand_free :
-    ∀ cb ∈ table.callbacks, ∀ g, cb.brand = some g →
+    ∀ cb ∈ table.clientCallbacks, ∀ g, cb.brand = some g →
       cb.ret.closedUnder cb.outerLts cb.outerTys = true →
       ∀ σ : String → Ty, (∀ p ∈ cb.outerTys, (σ p).mentionsLt g = false) →
         (cb.ret.subst σ).mentionsLt g = false := by
@@ -147,6 +182,12 @@ the head is `'static` (or the whole head is bounded by `'static`). -/
 theorem collect_static_only :
     ∀ ci ∈ table.collectImpls, ci.mustBeStatic = true → ci.staticOk = true := by decide
 
+/-- Lower bound: the impls the property names (`&'static T`, `Cell`, `RefCell`, `Static`) are among
+those the rule above ranges over. -/
+theorem collect_static_impls_present :
+    ∀ h ∈ ["&", "Cell", "RefCell", "Static"],
+      table.collectImpls.any (fun ci => ci.mustBeStatic && ci.selfTy.head == h) = true := by decide
+
 /-- Every re-branding site of `dynamic_roots.rs` — a lifetime `transmute` that introduces a
 lifetime (`Gc<'static, _>` ↦ `Gc<'gc, _>`) — only ever sees a handle that passed the identity check
 of the set handing it out: the site is dominated by `if self.contains(<the handle>)`, or it sits in
@@ -158,6 +199,18 @@ the functions involved.  Together with `table_classified` (every `unsafe` region
 single transmute or helper call) there is no other way the file re-brands anything. -/
 theorem transmutes_guarded :
     ∀ t ∈ table.transmutesIn "dynamic_roots.rs", table.transmuteOk t = true := by decide
+
+/-- Lower bound: re-branding sites that need a cover exist, and the identity check is applied at
+least once (at a site, or at the call of a helper). -/
+theorem rebrand_sites_present :
+    1 ≤ table.rebrandSites.length ∧ 1 ≤ table.identityChecks := by decide
+
+/-- What the guard means: `DynamicRootSet::contains` – the function whose call dominates every
+re-branding site – returns `bool` and ends in a comparison (`==` / `ptr::eq`) one side of which is
+computed from `self` alone and the other from the handle alone (read from its body by the
+translator; a `contains` that returns a constant, or compares the handle with itself, voids every
+guard and `transmutes_guarded` fails). -/
+theorem identity_check_is_comparison : identityCheckOk table.identityFns = true := by decide
 
 /-- `Write<T>` is a transparent wrapper around `T` (one field of type `T`, no lifetime parameter,
 no explicit auto-trait impl): a `&'gc Write<T>` carries exactly the brands of `&'gc T`. -/
@@ -179,6 +232,12 @@ program drops values – in every state `st` the program can reach:
 2. **return from the callback.**  If the innermost callback (brand `b`) returns now, then in *every*
    state the program can reach afterwards nothing of brand `b` is held and `b` is never active
    again.
+(Values held are pointers, contexts, root sets **and references into the arena**: a call hands the
+program `σ l` for every brand `l` of its result and for every reference lifetime of its result that
+is a brand of the signature – `&'gc T` from `Gc::as_ref`, `&'gc Write<T>` from `Gc::write` /
+`unlock`, `Ref<'gc, T>` from `borrow`, `OnceLock::get`, … (`Sig.outHeld`) – so all seven kinds of
+value the property names are in `held`; clause 4 says where they come from.)
+
 3. **different arena.**  Every call the program can make now involves exactly one brand – all
    branded inputs and all branded results share it – and it is the brand of an executing callback:
    a pointer of arena A is never combined with the `Mutation` or the root set of arena B, and no
@@ -206,7 +265,10 @@ theorem no_escape_in_flow_model {st : GcArena.BrandFlow.State}
         b ∉ st'.held ∧ b ∉ st'.active) ∧
     (∀ (s : GcArena.BrandFlow.Sig) (σ : String → Nat), s ∈ GcArena.Generated.brandFlow.sigs →
       s.callable = true → (∀ l ∈ s.inBrands, σ l ∈ st.held) →
-      ∀ b ∈ s.brands.map σ, b ∈ st.active ∧ ∀ b' ∈ s.brands.map σ, b' = b) :=
+      ∀ b ∈ s.brands.map σ, b ∈ st.active ∧ ∀ b' ∈ s.brands.map σ, b' = b) ∧
+    (∀ (s : GcArena.BrandFlow.Sig) (σ : String → Nat), s ∈ GcArena.Generated.brandFlow.sigs →
+      s.callable = true → (∀ l ∈ s.inBrands, σ l ∈ st.held) →
+      ∀ b ∈ s.outHeld.map σ, ∃ l ∈ s.inBrands, σ l = b ∧ b ∈ st.held) :=
   GcArena.BrandFlow.no_escape_of_table_ok (by decide) hr
 
 /-! ## Non-vacuity -/
@@ -248,12 +310,12 @@ example : requiredBranded.length = 11 ∧ 14 ≤ table.branded.length := by deci
 lemma, independently of the `ptr` field. -/
 example : table.variance "Gc" (.lt "gc") = .inv := by
   refine variance_inv_of_field table "Gc" _ _ (.lt "gc") rfl
-    (List.mem_cons_of_mem _ (List.mem_cons_self ..)) ?_
+    (List.mem_cons_of_mem _ (List.mem_cons_self ..)) rfl ?_
   decide
 
 /-- … and `Mutation` is not `Send` because of its `context` field, through the general lemma. -/
 example : (table.autoOf "Mutation").send = false := by
-  refine not_send_of_field table "Mutation" _ _ rfl (List.mem_cons_self ..) ?_ ?_ <;> decide
+  refine not_send_of_field table "Mutation" _ _ rfl (List.mem_cons_self ..) rfl ?_ ?_ <;> decide
 
 /-- The auto-trait derivation is not constantly "no": `Pacing` (plain floats) is `Send + Sync`. -/
 example : (table.autoOf "Pacing").send = true ∧ (table.autoOf "Pacing").sync = true := by decide
@@ -277,11 +339,6 @@ example : Callback.ok
       args := [.ref (.named "gc") (.adt "Mutation" [.named "gc"] []),
                .ref (.named "gc") (.proj (.param "R") "Rootable" [.named "gc"] [] "Root")],
       ret := .adt "Gc" [.named "gc"] [.param "T"], fnRet := .param "T" } = false := by decide
-
-/-- The `'static`-only filter selects the four impls the property names (`&'static T`, `Cell`,
-`RefCell`, `Static`). -/
-example : ((table.collectImpls.filter (·.mustBeStatic)).map (·.selfTy.head)) =
-    ["&", "Cell", "RefCell", "Static"] := by decide
 
 /-- The derived rows are there, `GcBuilder<T>` (the D4 case) among them, together with the slice
 builders that contain one. -/
@@ -345,6 +402,34 @@ example :
     (tbl [site "fetch" "root" [{ cond := "self.contains(root)", thenBranch := false }] true]).transmuteOk t = false ∧
     (tbl [site "fetch" "root" chk false]).transmuteOk t = false ∧
     ({ table with transmutes := [{ t with fnUnsafe := false }], callSites := [] } : Table).blameOf
-        { t with fnUnsafe := false } = ["DynamicRootSet::rebrand"] := by decide
+        { t with fnUnsafe := false } = ["DynamicRootSet::rebrand"] ∧
+    -- a `pub unsafe fn` is no excuse for a caller inside the crate
+    ({ table with transmutes := [{ t with fnPub := true }],
+                  callSites := [site "fetch" "root" [] true] } : Table).blameOf
+        { t with fnPub := true } = ["fetch"] ∧
+    -- … and a `contains` that is not a comparison of `self` with the handle voids every guard
+    ({ table with transmutes := [t], callSites := [site "fetch" "root" chk true],
+                  identityFns := table.identityFns.map (fun f => { f with cmp := "" }) } : Table).transmuteOk t
+        = false ∧
+    ({ table with transmutes := [t], callSites := [site "fetch" "root" chk true],
+                  identityFns := table.identityFns.map (fun f => { f with rhsDeps := f.lhsDeps }) } : Table).transmuteOk t
+        = false := by decide
+
+/-- The brand-site rule can fail: a safe `pub fn` without a higher-ranked callback that creates a
+brand is blamed, directly or through a private helper; the same helper used by `mutate` only is
+fine. -/
+example :
+    let site : BrandSite :=
+      { file := "arena.rs", fn_ := "static_mutation", fnLast := "static_mutation", fnUnsafe := true,
+        fnPub := false, kind := "cast", text := "*(cx as *const _)" }
+    let call (caller : String) (pub : Bool) : CallSite :=
+      { file := "arena.rs", caller := caller, callerLast := caller, callerUnsafe := false,
+        callerPub := pub, callerParams := [], callee := "static_mutation", calleePath := "static_mutation",
+        args := [], argBases := [], guards := [], isCall := true }
+    ({ table with brandSites := [site], callSites := [call "Arena::mutate" true] } : Table).brandSiteOk site = true ∧
+    ({ table with brandSites := [site], callSites := [call "Arena::mutate" true, call "Arena::leak" true] } : Table).brandSiteBlame site
+      = ["Arena::leak"] ∧
+    ({ table with brandSites := [{ site with fn_ := "Arena::leak", fnLast := "leak", fnUnsafe := false, fnPub := true }] } : Table).brandSiteOk
+      { site with fn_ := "Arena::leak", fnLast := "leak", fnUnsafe := false, fnPub := true } = false := by decide
 
 end GcArena.C12
